@@ -217,6 +217,14 @@ func c10ServerNegotiate(r *Run, sn *ssa.Function) {
 		}
 	})
 	if resp == nil {
+		// the reply built as one literal from temporaries (`newFcall(NOTAG, MessageRversion{MSize: msize, …})`)
+		eachInstr(sn, func(in ssa.Instruction) {
+			if a, ok := in.(*ssa.Alloc); ok && isP9P(a.Type(), "MessageRversion") {
+				resp = a
+			}
+		})
+	}
+	if resp == nil {
 		r.Undecided("rversion-msize", "servernegotiate: Rversion variable", sn.Pos(), "no MessageRversion variable found")
 		return
 	}
@@ -269,6 +277,36 @@ func c10ServerNegotiate(r *Run, sn *ssa.Function) {
 					r.Ok("rversion-msize", "servernegotiate: Rversion.MSize == value given to SetMSize (lowered branch)", st.Pos(), "MSize = "+lv.String())
 					done = true
 					break
+				}
+			}
+			// (a'/b') the lowering is done by a helper that reports through its result which way it went
+			// (`if !lowerMSize(ch, mv.MSize) { msize = uint32(ch.MSize()) }`)
+			for _, cd := range conds {
+				nc := normCond(cd)
+				hc, isCall := nc.V.(*ssa.Call)
+				if !isCall || done {
+					continue
+				}
+				g := staticCallee(&hc.Call)
+				if g == nil {
+					continue
+				}
+				vi, okSum := loweringHelper(r.P, g)
+				if !okSum || vi >= len(hc.Call.Args) {
+					continue
+				}
+				offered := fa.Lin(hc.Call.Args[vi])
+				isProposal := fieldOfTypedValue(fa, hc.Call.Args[vi], "MessageTversion", "MSize", 0)
+				if nc.Truth && offered.Equal(lv) {
+					r.Ok("rversion-msize", "servernegotiate: Rversion.MSize == value given to SetMSize (lowered branch)", st.Pos(), "MSize = "+lv.String()+" (installed by "+fnName(g)+", which returned true)")
+					done = true
+				} else if !nc.Truth && isProposal && len(lm.T) == 1 && lm.C == 0 {
+					for k, c := range lm.T {
+						if c == 1 && isMSizeGetter(lm.Atoms[k]) {
+							r.Ok("rversion-msize", "servernegotiate: Rversion.MSize == uint32(ch.MSize()) (unchanged branch)", st.Pos(), "MSize = "+lm.String()+" ("+fnName(g)+" returned false: no SetMSize, ch.MSize() <= proposal)")
+							done = true
+						}
+					}
 				}
 			}
 			if done {
@@ -438,7 +476,34 @@ func c10ClientNegotiate(r *Run, cn *ssa.Function) {
 	// the adopted msize is the server's answer: SetMSize argument derives from the Rversion's MSize field
 	for _, sc := range sets {
 		s := r.P.FA(setFn[sc]).Sym(sc.Call.Args[0])
-		r.Check(fieldOfTypedValue(r.P.FA(setFn[sc]), sc.Call.Args[0], "MessageRversion", "MSize", 0), "msize-only-lowered", "clientnegotiate: adopted msize is the Rversion's MSize", sc.Pos(),
+		okAdopt := fieldOfTypedValue(r.P.FA(setFn[sc]), sc.Call.Args[0], "MessageRversion", "MSize", 0)
+		if !okAdopt && setFn[sc] != cn {
+			// the lowering lives in a helper (possibly shared with the server side): the value it installs is its
+			// parameter, which clientnegotiate binds to the Rversion's MSize at its call(s) of the helper
+			g := setFn[sc]
+			gfa := r.P.FA(g)
+			for i, prm := range g.Params {
+				if !gfa.Lin(sc.Call.Args[0]).Equal(gfa.Lin(prm)) {
+					continue
+				}
+				nSites, all := 0, true
+				for _, f := range r.P.withHelpers(cn, 1) {
+					if f == g {
+						continue
+					}
+					for _, hc := range findCalls(f, fnName(g)) {
+						nSites++
+						if i >= len(hc.Call.Args) || !fieldOfTypedValue(r.P.FA(f), hc.Call.Args[i], "MessageRversion", "MSize", 0) {
+							all = false
+						}
+					}
+				}
+				if nSites > 0 && all {
+					okAdopt = true
+				}
+			}
+		}
+		r.Check(okAdopt, "msize-only-lowered", "clientnegotiate: adopted msize is the Rversion's MSize", sc.Pos(),
 			"the client adopts "+s.K+" rather than the server's answer")
 	}
 	// the client ends up with min(proposed, answered): every way to a success return either installs the answer
@@ -631,4 +696,80 @@ func fieldOfTypedValue(fa *FA, v ssa.Value, tname, field string, depth int) bool
 		}
 	}
 	return false
+}
+
+var loweringHelperCache = map[*ssa.Function][2]int{}
+
+// loweringHelper: g(ch Channel, …, offered, …) bool lowers the channel's msize to `offered` when that is smaller and
+// reports whether it did: every `true` return follows SetMSize(int(offered)) on ch; every `false` return is reached
+// without any SetMSize and on an edge implying ch.MSize() <= offered. Returns the index of `offered`.
+func loweringHelper(p *Prog, g *ssa.Function) (int, bool) {
+	if v, ok := loweringHelperCache[g]; ok {
+		return v[0], v[1] == 1
+	}
+	loweringHelperCache[g] = [2]int{0, 0}
+	if g.Blocks == nil || !p.InModule(g) || g.Signature.Results().Len() != 1 {
+		return 0, false
+	}
+	if b, ok := g.Signature.Results().At(0).Type().Underlying().(*types.Basic); !ok || b.Kind() != types.Bool {
+		return 0, false
+	}
+	sets := findCalls(g, "invoke p9p.Channel.SetMSize")
+	if len(sets) == 0 {
+		return 0, false
+	}
+	gfa := p.FA(g)
+	for vi, prm := range g.Params {
+		if _, _, isInt := intBits(prm.Type()); !isInt {
+			continue
+		}
+		x := gfa.Lin(prm)
+		ok := true
+		nT, nF := 0, 0
+		for _, rs := range returnSites(g) {
+			c, isC := rs.Results[0].(*ssa.Const)
+			if !isC || c.Value == nil {
+				ok = false
+				break
+			}
+			if c.Value.ExactString() == "true" {
+				nT++
+				good := false
+				for _, sc := range sets {
+					if rs.DominatedBy(sc) && gfa.Lin(sc.Call.Args[0]).Equal(x) {
+						if _, isPrm := sc.Call.Value.(*ssa.Parameter); isPrm {
+							good = true
+						}
+					}
+				}
+				if !good {
+					ok = false
+				}
+			} else {
+				nF++
+				for _, sc := range sets {
+					if sc.Block() == rs.At().Block() || reachAvoiding(sc.Block(), rs.At().Block(), nil) {
+						ok = false
+					}
+				}
+				facts := gfa.FactsAtSite(rs, x)
+				le := false
+				for _, f := range facts {
+					for _, a := range f.L.Atoms {
+						if isMSizeGetter(a) && EntailsLE(facts, linAtom(a), x) {
+							le = true
+						}
+					}
+				}
+				if !le {
+					ok = false
+				}
+			}
+		}
+		if ok && nT > 0 && nF > 0 {
+			loweringHelperCache[g] = [2]int{vi, 1}
+			return vi, true
+		}
+	}
+	return 0, false
 }
